@@ -12,7 +12,9 @@ spec -> code: every finished behaviour of Fetch_MC (TLC prints the inputs: kind,
               command is a scripted agent that follows the scenario and logs what it found and
               left.  All behaviours run with custom.spawn_bash replaced by an in-process
               interpreter of that very command line (process creation costs 20-90 ms on this
-              box); a sample runs through the real spawn_bash + bash agent.
+              box); a sample runs through the real spawn_bash + bash agent.  Quick tier: all
+              behaviours with budget <= 2 and <= 3 URIs plus a sample of the longer ones;
+              thorough: all of them (budget <= 3, <= 4 URIs; the model itself is checked to 4 x 5).
 code -> spec: seeded random scenarios (real sizes, random checksum subsets, true resume that
               appends, deletions, budgets up to 6, exhausted URI lists).
 Every run is projected to sizes / equality with the reference content and judged by
@@ -291,34 +293,37 @@ def run(ck):
         ck.sample(events[0])
     else:
         # 1. the design, exhaustively; and the unverified-last-attempt loop must be rejected
-        mb, mu = ck.pick(3, 4), ck.pick(4, 5)
-        ck.mc("Fetch_MC", cfg_text=mc_cfg(mb, mu), workers=ck.pick(2, 4), timeout=ck.pick(120, 800),
-              label=f"MC:Fetch_MC MaxBudget={mb} MaxUris={mu}")
-        bad = ck.mc("Fetch_MC", cfg_text=mc_cfg(2, 2, final=False), workers=1, timeout=120, expect_ok=False,
-                    label="MC:Fetch_MC FinalVerify=FALSE (must violate)")
-        if bad.violated != "NoGoodNotReturned":
-            raise tlc.MachineryError(f"the loop without final verification was not rejected as expected: {bad.violated}")
-        # 2. spec -> code: every finished behaviour
-        eb, eu = ck.pick(2, 3), ck.pick(3, 4)
-        res = ck.mc("Fetch_MC", cfg_text=mc_cfg(eb, eu, emit=True), workers=1, timeout=ck.pick(120, 800),
-                    label=f"Behaviours:Fetch_MC MaxBudget={eb} MaxUris={eu}")
+        if not ck.quick:
+            ck.mc("Fetch_MC", cfg_text=mc_cfg(4, 5), workers=4, timeout=800, label="MC:Fetch_MC MaxBudget=4 MaxUris=5")
+            bad = ck.mc("Fetch_MC", cfg_text=mc_cfg(2, 2, final=False), workers=1, timeout=120, expect_ok=False,
+                        label="MC:Fetch_MC FinalVerify=FALSE (must violate)")
+            if bad.violated != "NoGoodNotReturned":
+                raise tlc.MachineryError(f"the loop without final verification was not rejected as expected: {bad.violated}")
+        # 2. spec -> code: every finished behaviour (the same run checks the invariants)
+        res = ck.mc("Fetch_MC", cfg_text=mc_cfg(3, 4, emit=True), workers=1, timeout=ck.pick(200, 800),
+                    label="MC+Behaviours:Fetch_MC MaxBudget=3 MaxUris=4")
         behs = [p[1] for p in res.tagged("BEH")]
-        if len(behs) < 100:
+        if len(behs) < 1000:
             raise tlc.MachineryError(f"only {len(behs)} behaviours enumerated\n{res.out[-2000:]}")
-        ck.exhaustive = True
         ck.extra["behaviours_enumerated"] = len(behs)
+        r_ = rng(36)
+        if ck.quick:  # the complete sub-space budget <= 2, <= 3 URIs, and a sample of the rest
+            small = [b for b in behs if b["budget"] <= 2 and b["nuris"] <= 3]
+            rest = [b for b in behs if not (b["budget"] <= 2 and b["nuris"] <= 3)]
+            behs = small + r_.sample(rest, min(len(rest), 1200))
+            ck.extra["behaviours_replayed"] = f"all {len(small)} with budget<=2 and <=3 URIs + {len(behs) - len(small)} sampled"
+        ck.exhaustive = True
         for beh in behs:
             execute(case_of_beh(beh), False)
         ck.sample(dict(direction="spec->code", scenario=behs[len(behs) // 2]))
         # ... a sample of them through the real spawn_bash and the bash agent
-        r_ = rng(36)
         with_att = [b for b in behs if b["outcomes"]]
-        for beh in r_.sample(with_att, min(len(with_att), ck.pick(60, 1500))):
+        for beh in r_.sample(with_att, min(len(with_att), ck.pick(25, 500))):
             execute(case_of_beh(beh, good="Reference content"), True)
         # 3. code -> spec: random realistic scenarios
-        for _ in range(ck.pick(1500, 40000)):
+        for _ in range(ck.pick(1500, 25000)):
             execute(random_case(r_, allchf, True), False)
-        for _ in range(ck.pick(25, 600)):
+        for _ in range(ck.pick(10, 200)):
             execute(random_case(r_, allchf, False), True)
         ck.sample(dict(direction="code->spec", scenario={k: v for k, v in cases[-1].items() if k != "good"}, observed=events[-1]["result"]))
 
@@ -334,7 +339,7 @@ def run(ck):
         ck.violation(v["clause"], dict(
             case=case, real_bash=e["real"], kind=e["kind"], budget=e["budget"], nuris=e["nuris"], executed=len(e["atts"]),
             result=e["result"], exc=e["exc"],
-            good_left_by_last_budgeted_attempt=bool(last and len(e["atts"]) == e["budget"] and last["post"]["ex"]
-                                                    and last["post"]["same"] and e["result"] != "path"),
+            verified_file_left_by=[k + 1 for k, a in enumerate(e["atts"]) if a["post"]["ex"] and a["post"]["sz"] == a["post"]["esz"]],
+            last_budgeted_attempt_unverified=bool(last and len(e["atts"]) == e["budget"] and e["result"] != "path"),
         ))
     shutil.rmtree(bench.root, ignore_errors=True)
